@@ -33,7 +33,8 @@ Record params := mkParams {
   p_interval : Z;     (* adj.cleanup_interval *)
   p_send_bytes : Z;   (* adj.send_bytes *)
   p_lookahead : Z;    (* adj.channel_request_lookahead *)
-  p_sndbuf : Z        (* room of a fresh connection's send buffer (fake kernel) *)
+  p_sndbuf : Z;       (* room of a fresh connection's send buffer (fake kernel) *)
+  p_high_watermark : Z (* adj.outbuf_high_watermark *)
 }.
 
 (* what a client write amounts to for HTTPChannel.received: bytes that do not
@@ -159,7 +160,7 @@ Definition flush_some (do_close : bool) (now : Z) (c : chan) : option chan :=
    turn in this model (EAppFinish is atomic), so _flush_some_if_lockable flushes. *)
 Definition handle_write (p : params) (now : Z) (c : chan) : option chan :=
   let flushed :=
-    match gen_hw_flush (len_requests c) (c_pend c) (p_send_bytes p) with
+    match gen_hw_flush (len_requests c) (c_pend c) (p_send_bytes p) (p_high_watermark p) with
     | FlushSome => flush_some true now c
     | FlushIfLockable => flush_some true now c
     | FlushNone => Some c
